@@ -42,6 +42,7 @@ def write_mc(sc, cfg, rows, module="PrioV2", invariants=(), properties=(), spec=
         f.write("====\n")
     with open(os.path.join(sc, name + ".cfg"), "w") as f:
         f.write("SPECIFICATION %s\nCONSTANTS\n  PrioSeq <- c_PrioSeq\n  DivTbl <- c_DivTbl\n  InCap <- c_InCap\n  Items <- c_Items\n" % spec)
+        f.write("  NoClose = {%s}\n" % ", ".join(str(x) for x in cfg.get("noclose", [])))
         f.write("  H = %d\n  OutCap = %d\n  FbCap = %d\n  FbLimit = %d\n  Saturated = %s\n  FaultBudget = %d\n" % (
             cfg["H"], caps(cfg), caps(cfg), caps(cfg), "TRUE" if cfg.get("saturated") else "FALSE", cfg.get("faults", 0)))
         for k, val in cfg.get("consts", {}).items():
